@@ -185,6 +185,39 @@ def receiver(R, ctx):
                     R.ob(rid, "process_function_call|%s" % v, v in free, ctx.where(fn, m.get("ln")),
                          "receiver variant Expression::%s is duplicated; effect-free: %s" % (v, v in free))
     R.require(rid, "floor", n >= 5, ctx.where(fn), "%d duplicated receiver variants" % n)
+    # the copy inserted as first argument is in LAST-argument position when the call had no argument: a multi-valued
+    # receiver (`...`, a call) must keep its parentheses there.  Lua's own table of multi-valued expressions is the reference.
+    MULTI = {"Call", "VariableArguments"}
+    accepted = set()
+    for m in tables.matches_on(lib, thir.body_of(fn), EXPR):
+        for v, rows in tables.variant_table(lib, m, EXPR).items():
+            if any(c == "Some" for c, g, arm in rows):
+                accepted.add(v)
+    fa = ctx.an.fa(fn["path"])
+    FC = "nodes::function_call::FunctionCall"
+    ins = [c for c in thir.calls(fn) if c.get("fname") == "insert" and len(c["args"]) == 3 and
+           ((FC, "arguments") in fa.origins(c["args"][0]) or any(x.get("fname") == "mutate_arguments" for x in fa.source_calls(c["args"][0])))]
+    if R.require(rid, "anchor:insert-first-argument", len(ins) >= 1, ctx.where(fn), "no `arguments.insert(0, receiver)` found"):
+        for c in ins:
+            x = c["args"][2]
+            while x.get("k") in ("Use", "Scope", "NeverToAny") and "e" in x:
+                x = x["e"]
+            srcs = [x] + list(fa.source_calls(x))
+            via_prefix = False
+            for q in srcs:
+                if q.get("k") == "Call" and q.get("fname") in ("from", "into") and q["args"]:
+                    at = lib.types[lib.strip_refs(q["args"][0]["t"])].get("adt")
+                    rt = lib.types[lib.strip_refs(q["t"])].get("adt")
+                    if at == "nodes::expressions::prefix::Prefix" and rt == EXPR:
+                        via_prefix = True
+                if q.get("k") == "Call" and q.get("fname") == "in_parentheses":
+                    via_prefix = True
+            for v in sorted(MULTI & accepted) or ["(none accepted)"]:
+                ok = via_prefix or v == "(none accepted)"
+                R.ob(rid, "first-argument-single-valued|%s" % v, ok, ctx.where(fn, c.get("ln")),
+                     "no multi-valued receiver variant is duplicated" if v == "(none accepted)" else
+                     ("receiver Expression::%s is multi-valued; the inserted copy %s" % (v, "keeps its parentheses (Prefix -> Expression)" if via_prefix else
+                      "is the bare inner expression: `(...):m()` becomes `(...).m(...)` and passes every value")))
 
 
 def run(R, ctx):
